@@ -26,6 +26,7 @@
 #include <cstdlib>
 #include <cstring>
 #include <functional>
+#include <map>
 #include <set>
 #include <sstream>
 #include <string>
@@ -446,8 +447,17 @@ inline void run_cases(uint64_t n, const std::function<void(uint64_t)>& fn) {
 
 // E2: run a whole exploration in a child; on a crash, remember the crashing transition label
 // (the replay string) in `skip` and start over, treating it as terminal.
-inline void run_isolated(const std::function<void(const std::set<std::string>&)>& fn, int max_restarts = 40) {
+// `skip` holds the replay strings of crashing transitions (treated as terminal by the caller); when the
+// same op label crashes `class_limit` times the label is added to disabled_labels() and the caller
+// stops driving that class of transitions altogether (reported as CAP: the run is then not exhaustive).
+inline std::set<std::string>& disabled_labels() {
+    static std::set<std::string> d;
+    return d;
+}
+inline void run_isolated(const std::function<void(const std::set<std::string>&)>& fn, int max_restarts = 60,
+                         int class_limit = 3) {
     std::set<std::string> skip;
+    std::map<std::string, int> crashes_by_label;
     // counters added by fn are re-computed by every restart; counters of earlier work in this process stay
     Shared* s = shm();
     long long saved[96];
@@ -460,6 +470,11 @@ inline void run_isolated(const std::function<void(const std::set<std::string>&)>
         bool ok = run_child([&] { fn(skip); });
         if (ok) break;
         skip.insert(shm()->replay);
+        std::string label = shm()->op;
+        if (++crashes_by_label[label] >= class_limit && !disabled_labels().count(label)) {
+            disabled_labels().insert(label);
+            cap("transitions labelled '" + label + "' crashed " + std::to_string(class_limit) + " times and are no longer driven");
+        }
         if (r + 1 >= max_restarts) {
             cap("too many crashing transitions; exploration stopped");
             break;
